@@ -79,6 +79,8 @@ def make_family(ctx):
     fam = dict(base=(prems, conc))
     rp = list(prems)
     rp.insert(rng.randrange(len(rp) + 1), conc)
+    if rng.random() < 0.25:
+        rp.insert(rng.randrange(len(rp) + 1), conc)       # the shared sentence occurs twice
     fam['reflexive'] = (rp, conc)
     extra = lexgen.gen_sentence(rng, prof, depth=rng.choice((0, 1, 2)))
     mp = list(prems)
